@@ -13,6 +13,7 @@ func init() {
 	vRegister("VH_C13_StringDecode", VH_C13_StringDecode)
 	vRegister("VH_C13_ClassAdReaders", VH_C13_ClassAdReaders)
 	vRegister("VH_C13_CappedConsumption", VH_C13_CappedConsumption)
+	vRegister("VH_C13_AnnouncedLength", VH_C13_AnnouncedLength)
 }
 
 // vhAdversary scripts up to three frames of symbolic length (<= maxLen each),
@@ -217,5 +218,40 @@ func VH_C13_CappedConsumption() {
 		vCover("capped-error")
 	} else {
 		vCover("capped-ok")
+	}
+}
+
+// VH_C13_AnnouncedLength: a length-prefixed string (encrypted framing) whose
+// announced length is arbitrary while the data trickles in: the 8-byte prefix in a
+// frame of its own, then one or two short frames (<= 4 bytes each, the first of
+// them not the last of the message). Nothing is reserved or allocated on the
+// strength of the announced length alone: allocations stay within the bytes
+// delivered plus a constant, there is no panic, and a length that the data does
+// not back is an error.
+//
+//verif:unwind 16
+func VH_C13_AnnouncedLength() {
+	r := &vhStream{enc: true}
+	r.feed(vBlob("prefix", 8), false)
+	f1 := vBytes("f1", 4)
+	vAssume(len(f1) >= 1)
+	r.feed(f1, false)
+	f2 := vBytes("f2", 4)
+	r.feed(f2, true)
+	total := 8 + len(f1) + len(f2)
+	vAllocLimit(total + 64 + MaxFrameSize)
+	m := NewMessageFromStream(r)
+	var err error
+	var s string
+	if vBool("skip") {
+		err = m.SkipString(vhCtx)
+	} else {
+		s, err = m.GetString(vhCtx)
+	}
+	if err != nil {
+		vCover("announced-length-not-backed-by-data")
+	} else {
+		vCover("string-decoded")
+		vAssert(len(s) <= len(f1)+len(f2), "no-more-than-was-delivered")
 	}
 }
